@@ -16,3 +16,6 @@ contract First {
 
     constructor() {}
 }
+
+
+	
